@@ -55,6 +55,35 @@ fn rand_chacha_dummy() -> impl RngCore {
     Z
 }
 
+/// Scalars at the magnitudes where word-sized fast paths, limb boundaries and byte-pattern tests
+/// change behaviour: 2^k - 1, 2^k, 2^k + 1 for k at byte / word / limb boundaries, and k * 2^248
+/// (only the most significant byte set).
+pub fn magnitude_scalars() -> Vec<(String, RS)> {
+    let mut out = Vec::new();
+    let one = RS::ONE;
+    let mut p = one; // 2^k
+    for k in 1..=254u32 {
+        p = p + p;
+        if [8u32, 16, 31, 32, 33, 63, 64, 65, 127, 128, 129, 191, 192, 193, 248, 253, 254].contains(&k) {
+            out.push((format!("2^{k}-1"), p - one));
+            out.push((format!("2^{k}"), p));
+            out.push((format!("2^{k}+1"), p + one));
+        }
+        if k == 248 {
+            out.push(("3*2^248".to_string(), p + p + p));
+            out.push(("0x73*2^248".to_string(), p * RS::from(0x73u64)));
+        }
+    }
+    out.push(("255".to_string(), RS::from(255u64)));
+    out.push(("0xdeadbeefcafef00d".to_string(), RS::from(0xdead_beef_cafe_f00du64)));
+    out.push(("u64::MAX".to_string(), RS::from(u64::MAX)));
+    out
+}
+
+/// Message lengths at which pk || msg (augmentation: 48- or 96-byte public key) crosses a
+/// one-byte or two-byte length boundary.
+pub const LENGTHS_PK_BOUNDARY: &[usize] = &[159, 160, 161, 207, 208, 209];
+
 pub fn random_scalar(rng: &mut impl RngCore) -> RS {
     loop {
         let mut wide = [0u8; 64];
@@ -80,6 +109,9 @@ pub enum Content {
     Ones,
     Counter,
     Random,
+    /// starts like a multi-byte LEB128 number (0xff x 8, 0x01): when a flipped length prefix
+    /// runs on into the message, the message bytes are read as part of the length
+    VarintLike,
 }
 
 pub const CONTENTS: [Content; 4] = [
@@ -94,6 +126,7 @@ pub fn message(len: usize, c: Content, rng: &mut impl RngCore) -> Vec<u8> {
         Content::Zero => vec![0u8; len],
         Content::Ones => vec![0xffu8; len],
         Content::Counter => (0..len).map(|i| i as u8).collect(),
+        Content::VarintLike => (0..len).map(|i| if i < 8 { 0xff } else if i == 8 { 0x01 } else { i as u8 }).collect(),
         Content::Random => {
             let mut v = vec![0u8; len];
             rng.fill_bytes(&mut v);
